@@ -1,1 +1,121 @@
-/-! Property theorems for C01 (see /verif/DESIGN.md). Only property theorems and non-vacuity examples live here. -/
+import Proofs.C01Expr
+import Proofs.C01Stmt
+import Proofs.C01ConcLaws
+import Proofs.C01Tables
+/-!
+# C01 — compiled execution preserves the meaning of the parsed program
+
+Model: `GoawkModel.C01` (`eval`/`exec` = direct evaluation of the resolved syntax tree; `cExpr`/`cStmt` = compiler.go;
+`stepTo`/`run` = the dispatch loop of vm.go). Values and primitive operations are parameters (`Sem`) shared by both sides;
+`Laws`/`StmtLaws` are the relations between primitives that the compiler's shortcuts rely on (all hold for the concrete
+semantics `semC`, see `semC_laws`). Every theorem is for all expressions, stacks, worlds and code contexts — no bounds.
+-/
+namespace GoawkModel.C01.Props
+open GoawkModel GoawkModel.C01
+
+variable {S : Sem}
+
+/-- FULL statement of the property on the model: whatever the reference semantics yields for a whole statement (normal
+completion, `next`, `exit`) the compiled code run by the VM yields too. Only the parts below are proved so far. -/
+def CompileStmtCorrect (S : Sem) : Prop :=
+  ∀ (p : Stmt) (w : S.W) (n : Nat),
+    (∀ w', exec S n p w = some (.normal w') → ∃ m, run S (cStmt 0 0 p) m ⟨0, [], w⟩ = .normal w') ∧
+    (∀ w', exec S n p w = some (.next w') → ∃ m, run S (cStmt 0 0 p) m ⟨0, [], w⟩ = .next w') ∧
+    (∀ w', exec S n p w = some (.exit w') → ∃ m, run S (cStmt 0 0 p) m ⟨0, [], w⟩ = .exit w')
+
+/-- Stage A (`compile_expr_correct`): for EVERY expression — all operators, `&&`/`||`/`?:` with their jumps, fused
+conditions inside `?:`, `FieldInt`, constant subscripts, `ConcatMulti`, assignment / `op=` / `++` / `--` on every lvalue
+kind — if direct evaluation gives `(v, w')` then the compiled code, wherever it sits in a program and whatever is on the
+stack, runs to its end leaving `v` pushed and the world `w'`. -/
+theorem compile_expr_correct (L : Laws S) (e : Expr) (C : Code) (pc : Nat) (s : List S.V) (w : S.W) (v : S.V) (w' : S.W)
+    (hc : CodeAt C pc (cExpr e)) (h : eval S e w = some (v, w')) :
+    Reach S C ⟨pc, s, w⟩ ⟨pc + csize (cExpr e), v :: s, w'⟩ :=
+  (expr_all L e).1 s w v w' h C pc hc
+
+/-- the same, for the expression compiled on its own (a pattern): the VM halts normally with the evaluator's world -/
+theorem compile_expr_run (L : Laws S) (e : Expr) (w : S.W) (v : S.V) (w' : S.W) (h : eval S e w = some (v, w')) :
+    ∃ n, run S (cExpr e) n ⟨0, [], w⟩ = .normal w' := by
+  have r := compile_expr_correct L e (cExpr e) 0 [] w v w' (CodeAt.whole _) h
+  exact run_of_reach r (by simp)
+
+/-- Stage A2 (`condition_correct`), inverted sense as used by `if`, `while` entry, `for` entry and `?:`: after the condition
+code, the returned jump opcode restores the stack and jumps exactly when the condition is FALSE. Covers the fused
+`JumpEquals`/`JumpNotEquals` and — as repaired by F01 — the unfused ordering comparisons. -/
+theorem condition_correct_inverted (L : Laws S) (c : Expr) (s : List S.V) (w : S.W) (cv : S.V) (w1 : S.W)
+    (h : eval S c w = some (cv, w1)) :
+    ∃ s1, Frag S (cCondT c) s w s1 w1 ∧
+      ∀ off, execInstr S (cJumpT c off) s1 w1 = some (condJump S (!S.toBool cv) off s w1) :=
+  condT_spec L (expr_all L c).1 (expr_all L c).2.2 s w cv w1 h
+
+/-- normal sense as used at the bottom of `while`/`for`/`do` loops: all six comparisons fused; the jump is taken exactly
+when the condition is TRUE. `cmp` is an arbitrary function: no order law (so NaN-like values) is assumed. -/
+theorem condition_correct (L : Laws S) (c : Expr) (s : List S.V) (w : S.W) (cv : S.V) (w1 : S.W)
+    (h : eval S c w = some (cv, w1)) :
+    ∃ s1, Frag S (cCondF c) s w s1 w1 ∧
+      ∀ off, execInstr S (cJumpF c off) s1 w1 = some (condJump S (S.toBool cv) off s w1) :=
+  condF_spec L (expr_all L c).1 (expr_all L c).2.2 s w cv w1 h
+
+/-- Corollary named in the property: statement-position `x = e`, `x++`, `--x`, `x op= e` (for variables of every scope,
+fields and array elements) behave like the expression-position code followed by `Drop`: same final world, stack unchanged. -/
+theorem stmt_position_eq_expr_position (L : Laws S) (M : StmtLaws S) (e : Expr) (s : List S.V) (w : S.W) (v : S.V) (w' : S.W)
+    (h : eval S e w = some (v, w')) :
+    Frag S (cExprStmt e) s w s w' ∧ Frag S (cExpr e ++ [.drop]) s w s w' :=
+  ⟨exprStmt_correct L M e s w v w' h, exprDrop_correct L e s w v w' h⟩
+
+/-- Corollary: `$<const>` (`FieldInt`) ≡ `$(<const>)` (`Num; Field`) -/
+theorem fieldInt_shortcut (L : Laws S) (c : NumC) (s : List S.V) (w : S.W) :
+    Frag S (cExpr (.field (.num c))) s w (S.getField (S.numV c) w :: s) w ∧
+    Frag S (cExpr (.field (.group (.num c)))) s w (S.getField (S.numV c) w :: s) w :=
+  ⟨(expr_all L _).1 s w _ w (by simp [eval]), (expr_all L _).1 s w _ w (by simp [eval])⟩
+
+/-- Corollary: constant subscript `a[<int>]` (compiled to the string constant) ≡ the subscript evaluated at run time -/
+theorem const_index_shortcut (L : Laws S) (sc : AScope) (a : Nat) (c : NumC) (s : List S.V) (w : S.W) :
+    Frag S (cExpr (.index sc a (.num c))) s w ((S.getArr sc a (S.numV c) w).1 :: s) (S.getArr sc a (S.numV c) w).2 ∧
+    Frag S (cExpr (.index sc a (.group (.num c)))) s w ((S.getArr sc a (S.numV c) w).1 :: s) (S.getArr sc a (S.numV c) w).2 :=
+  ⟨(expr_all L _).1 s w _ _ (by simp [eval]), (expr_all L _).1 s w _ _ (by simp [eval])⟩
+
+/-- Corollary: a flattened chain (`ConcatMulti 3`) ≡ the nested two-operand concatenations of the regrouped spelling.
+Needs `Laws.concat_stable` (number-to-string conversion does not change while the chain is evaluated); without it the
+real code differs — recorded finding G01-1, replayed by the harness. -/
+theorem concatMulti_eq_nested (L : Laws S) (x y z : Expr) (s : List S.V) (w : S.W) (v : S.V) (w' : S.W)
+    (h : eval S (.concat (.concat x y) z) w = some (v, w')) :
+    Frag S (cExpr (.concat (.concat x y) z)) s w (v :: s) w' ∧ Frag S (cExpr (.concat (.group (.concat x y)) z)) s w (v :: s) w' :=
+  ⟨(expr_all L _).1 s w v w' h, (expr_all L _).1 s w v w' (by simpa [eval] using h)⟩
+
+/-- Stage A2 tie: the fused-jump table of `condition` (normal: all six comparisons; inverted: only `==`/`!=`), `binaryOp`,
+the statement-position `AugOp` table and the operator each VM case applies, as EXTRACTED from compiler.go / vm.go on this
+run, are the tables of the model the theorems above are about. Swapping `JumpLess`/`JumpLessOrEqual`, fusing an inverted
+ordering comparison again, or changing an operator in a `Jump*` case breaks one of these. -/
+theorem gen_matches :
+    Generated.C01Tables.condFused = modelCondFused ∧
+    Generated.C01Tables.condUnfusedWhenInverted = modelUnfusedWhenInverted ∧
+    (CmpOp.all.map fun op => (lookup Generated.C01Tables.vmCompare op.opName, lookup Generated.C01Tables.vmCompare op.jumpName))
+      = CmpOp.all.map fun op => (op.goOp, op.goOp) :=
+  ⟨gen_matches_condFused, gen_matches_condUnfused, gen_matches_vmCompare⟩
+
+theorem gen_matches_ops :
+    ((CmpOp.all.map fun op => lookup Generated.C01Tables.binaryOp op.token) = CmpOp.all.map (·.opName) ∧
+     (ArithOp.all.map fun op => lookup Generated.C01Tables.binaryOp op.token) = ArithOp.all.map (·.opName)) ∧
+    (ArithOp.all.map augOf = ArithOp.all.map (·.augName) ∧
+     ArithOp.all.map (fun op => vmAugOf (augOf op)) = ArithOp.all.map (·.goOp)) :=
+  ⟨gen_matches_binaryOp, gen_matches_augOp⟩
+
+/-- non-vacuity: the laws hold for the concrete integer/string semantics used by the behaviour correspondence -/
+theorem laws_hold_for_semC (b : Bool) : Laws (semC b) := semC_laws b
+
+-- non-vacuity: the shapes the corollaries talk about really are the shortcut code
+example : cExpr (.field (.num ⟨true, 2⟩)) = [.fieldInt 2] := by simp [cExpr, cE, NumC.int32?]
+example : cExpr (.field (.group (.num ⟨true, 2⟩))) = [.num ⟨true, 2⟩, .field] := by simp [cExpr, cE]
+example : cExpr (.concat (.concat (.str [97]) (.str [98])) (.str [99])) = [.str [97], .str [98], .str [99], .concatMulti 3] := by
+  simp [cExpr, cE]
+example : cExprStmt (.augAssign (.var .global 0) .add (.num ⟨true, 1⟩)) = [.num ⟨true, 1⟩, .augVar .global .add 0] := by
+  simp [cExprStmt, cExpr, cE]
+example : cCondT (.cmp .eq (.var .global 0) (.num .one)) ++ [cJumpT (.cmp .eq (.var .global 0) (.num .one)) 5] =
+    [.getVar .global 0, .num .one, .jumpCmp .ne 5] := by simp [cCondT, cJumpT, cExpr, cE]
+example : cCondT (.cmp .lt (.var .global 0) (.num .one)) ++ [cJumpT (.cmp .lt (.var .global 0) (.num .one)) 5] =
+    [.getVar .global 0, .num .one, .cmp .lt, .jumpFalse 5] := by simp [cCondT, cJumpT, cExpr, cE]
+-- non-vacuity: a concrete evaluation satisfying the hypothesis of `compile_expr_correct`
+example : (eval (semC false) (.assign (.var .global 0) (.arith .add (.num ⟨true, 2⟩) (.num ⟨true, 3⟩))) {}).map (·.1) = some (CV.num 5) := by
+  simp [eval, semC, Conc.arith, Conc.toNum, Conc.big]
+
+end GoawkModel.C01.Props
